@@ -1,6 +1,6 @@
 (* C07 - Clones are faithful, self-contained and independent of the original. Property theorems only. *)
 From Coq Require Import List ZArith String.
-From SV Require Import Base.Base IR.State IR.NS IR.Ops Xform.Clone Proofs.CloneSmall Proofs.C01_full Proofs.Inv1a Proofs.Inv2a Proofs.CloneFrame Proofs.CloneStart Proofs.NsInv Proofs.InvW Proofs.UniqInv Proofs.CloneFaith Proofs.CloneFull Proofs.CloneNetInv Proofs.CloneDefStruct Proofs.CloneLibInv Proofs.CloneAnyInv Proofs.CloneData Proofs.CloneDataNet.
+From SV Require Import Base.Base IR.State IR.NS IR.Ops Xform.Clone Proofs.CloneSmall Proofs.C01_full Proofs.Inv1a Proofs.Inv2a Proofs.CloneFrame Proofs.CloneStart Proofs.NsInv Proofs.InvW Proofs.UniqInv Proofs.CloneFaith Proofs.CloneFull Proofs.CloneNetInv Proofs.CloneDefStruct Proofs.CloneLibInv Proofs.CloneAnyInv Proofs.CloneData Proofs.CloneDataNet Proofs.Locality Proofs.LocalityStep Proofs.LocalityHist Proofs.LocalityClone Proofs.LocalityOrig Proofs.LocalityDrefs Proofs.LocalityRefs Proofs.LocalityNet.
 Import ListNotations.
 
 (* cloning a wire: one fresh element, no pins listed, nothing else changes *)
@@ -400,3 +400,223 @@ Example C07_then_any_history_sample :
   | None => False
   end.
 Proof. vm_compute. repeat split. Qed.
+
+
+(* ---- INDEPENDENCE: "later edits ... of either netlist never show in the other" ----
+   Regions (Proofs/Locality.v): a region is a set P of identifiers; [RClosed P s] - every link stored in
+   an object of P (containers and parents, pin -> wire, wire -> pins, an outer pin counting through its
+   instance, outer-pin table -> wires, reference set -> instances, netlist -> top instance) leads into P
+   and identifiers not yet allocated belong to P (objects created by calls on P join P). The pointer
+   instance -> definition is the documented outward link and is not required to stay inside.
+   LOCALITY: for every public editing call whose argument objects lie in a closed region P - accepted or
+   refused - every field of every object outside P (kind, the seven containers in order, parents, wire
+   pins, pin wire, reference, outer-pin table, top, is-top, bundle attributes, direction, data
+   dictionary, namespace table; [out_eq]; reference sets are the documented exception) is unchanged, and
+   P is still closed afterwards. *)
+Theorem C07_locality : forall P s o,
+  RClosed P s -> op_in P o -> out_eq P s (fst (step s o)) /\ RClosed P (fst (step s o)).
+Proof. exact step_local. Qed.
+Print Assumptions C07_locality.
+
+(* ... and over every history of such calls, by induction with the closedness carried along *)
+Theorem C07_independent_of_closed_region : forall P s ops,
+  RClosed P s -> Forall (op_in P) ops -> out_eq P s (run ops s) /\ RClosed P (run ops s).
+Proof. exact history_independent. Qed.
+Print Assumptions C07_independent_of_closed_region.
+
+(* after a clone of any kind of root the new objects are closed under containment and contain every
+   identifier allocated later - the containment part of "the copy's region is closed" *)
+Theorem C07_copy_region_containment : forall s s', CloneOK s s' ->
+  (forall x, next s' <= x -> copy_region (next s) x) /\
+  (forall r x c, copy_region (next s) x -> In c (kids s' r x) -> copy_region (next s) c).
+Proof. exact copy_region_kids. Qed.
+Print Assumptions C07_copy_region_containment.
+
+(* CLOSURE: after a completed Netlist.clone, in every reachable state, the region of the copy - the objects
+   created by the call and everything allocated later - is closed under ALL links (containment both ways,
+   pin-wire joins both ways, outer-pin tables, reference sets, top instance), so it is separated from the
+   objects that existed before. (CI of the frame proof for containment and top; every other link has a
+   back pointer by Inv of the state after the clone, old objects are unchanged, and nothing in the state
+   before the clone points at an unallocated identifier.) *)
+Theorem C07_netlist_clone_copy_region_closed : forall ops n,
+  let s := run ops init in
+  kind_of s n = Some KNetlist -> Closed s n -> snd (fst (clone_netlist s n)) = None ->
+  RClosed (copy_region (next s)) (fst (fst (clone_netlist s n))).
+Proof. exact netlist_clone_copy_region_closed. Qed.
+Print Assumptions C07_netlist_clone_copy_region_closed.
+
+(* the same from the invariants, for the clone of any state and any memo of the frame proof *)
+Theorem C07_copy_region_closed_from : forall s sF m,
+  UF s -> Inv sF -> CI (next s) s sF m -> RClosed (copy_region (next s)) sF.
+Proof. exact copy_region_closed. Qed.
+Print Assumptions C07_copy_region_closed_from.
+
+(* INDEPENDENCE, copy side: after a completed Netlist.clone in any reachable state, for EVERY history h of
+   editing calls - accepted or refused - whose argument objects belong to the copy (or were created by
+   earlier calls of h), every field of every object that existed before the clone is exactly as the clone
+   left it: edits of the copy never show in the original. *)
+Theorem C07_edits_of_copy_never_show_in_original : forall ops n h,
+  let s := run ops init in
+  let sF := fst (fst (clone_netlist s n)) in
+  kind_of s n = Some KNetlist -> Closed s n -> snd (fst (clone_netlist s n)) = None ->
+  Forall (op_in (copy_region (next s))) h ->
+  out_eq (copy_region (next s)) sF (run h sF) /\ RClosed (copy_region (next s)) (run h sF).
+Proof. exact netlist_clone_copy_edits_independent. Qed.
+Print Assumptions C07_edits_of_copy_never_show_in_original.
+
+(* non-vacuity: a two-level design (leaf cell with a port, top cell with a child of the leaf, a cable
+   connected to the child's outer pin, a two-pin port, a top instance) is cloned (copy = objects 13..25);
+   the copy is then edited by a history that creates a cable and connects its wire, disconnects the child's
+   outer pin, renames the leaf, widens the leaf by a port (which gives every instance of the COPY's leaf a
+   new outer pin), removes the child and sets a property on the netlist: all calls are accepted, the copy
+   changes, and the original is as it was *)
+Example C07_edits_of_copy_sample :
+  let ops := [ ONew KNetlist None []; OCreate RLibs 0 (Some (s2l "work"%string)) [] 0 None;
+               OCreate RDefs 1 (Some (s2l "leaf"%string)) [] 0 None; OCreate RPorts 2 (Some (s2l "A"%string)) [] 1 None;
+               OCreate RDefs 1 (Some (s2l "top"%string)) [] 0 None;
+               OCreate RChildren 5 (Some (s2l "u1"%string)) [] 0 (Some 2);
+               OCreate RCables 5 (Some (s2l "n1"%string)) [] 1 None;
+               OCreate RPorts 5 (Some (s2l "P"%string)) [] 2 None;
+               OConnect 8 (POut 6 4) None; OSetTop 0 (TopDef 5) ] in
+  let s := run ops init in
+  let sF := fst (fst (clone_netlist s 0)) in
+  let h := [ OCreate RCables 18 (Some (s2l "n2"%string)) [] 1 None; OConnect 27 (PIn 20) None;
+             ODisconnect 23 (POut 24 17); OSetName 15 (Some (s2l "leaf_edited"%string));
+             OCreate RPorts 15 (Some (s2l "B"%string)) [] 1 None; ORemove RChildren 18 24;
+             ODSet 13 (s2l "k"%string) (VInt 7) ] in
+  (kind_of s 0 = Some KNetlist /\ closedb s 0 = true /\ snd (fst (clone_netlist s 0)) = None /\ next s = 13 /\ next sF = 26) /\
+  Forall (op_in (copy_region (next s))) h /\
+  (kids sF RCables 18 = [22] /\ kids (run h sF) RCables 18 = [22; 26] /\ ipwire (run h sF) 20 = Some 27 /\
+   wpins sF 23 = [POut 24 17] /\ wpins (run h sF) 23 = [] /\ kids (run h sF) RPorts 15 = [16; 28] /\
+   kids sF RChildren 18 = [24] /\ kids (run h sF) RChildren 18 = [] /\ next (run h sF) = 30) /\
+  (kids (run h sF) RCables 5 = [7] /\ wpins (run h sF) 8 = [POut 6 4] /\ ipins (run h sF) 6 = [(4, Some 8)] /\
+   kids (run h sF) RPorts 2 = [3] /\ kids (run h sF) RChildren 5 = [6] /\ drefs (run h sF) 2 = [6] /\
+   data (run h sF) 2 = data s 2 /\ data (run h sF) 0 = data s 0).
+Proof.
+  cbv zeta. split; [vm_compute; repeat split|]. split; [|vm_compute; repeat split].
+  replace (next (run _ init)) with 13 by (vm_compute; reflexivity).
+  repeat (constructor; [cbn; unfold copy_region; repeat split; intros; try discriminate; try (apply PeanoNat.Nat.leb_le; reflexivity)|]).
+  constructor.
+Qed.
+
+(* INDEPENDENCE, original side: the region of the original after the clone - the objects that existed
+   before the call and everything allocated after it - is closed as well (no reference set of an old
+   definition lists an object of the copy: C07_netlist_clone_keeps_old_reference_sets below, from the final
+   filter of Netlist._clone_rip), and then for EVERY history of editing calls on objects of the
+   original (or created by those calls) every field of every object of the copy is unchanged. *)
+(* Netlist.clone of a closed netlist does not even touch the reference sets of the objects that existed
+   before the call: the exception of C07_frame_and_closure does not arise for netlist roots *)
+Theorem C07_netlist_clone_keeps_old_reference_sets : forall ops n,
+  let s := run ops init in
+  kind_of s n = Some KNetlist -> Closed s n -> snd (fst (clone_netlist s n)) = None ->
+  forall y, y < next s -> drefs (fst (fst (clone_netlist s n))) y = drefs s y.
+Proof. exact clone_netlist_reachable_old_drefs. Qed.
+Print Assumptions C07_netlist_clone_keeps_old_reference_sets.
+
+Theorem C07_netlist_clone_orig_region_closed : forall ops n,
+  let s := run ops init in
+  let sF := fst (fst (clone_netlist s n)) in
+  kind_of s n = Some KNetlist -> Closed s n -> snd (fst (clone_netlist s n)) = None ->
+  RClosed (orig_region (next s) (next sF)) sF.
+Proof. exact netlist_clone_orig_region_closed. Qed.
+Print Assumptions C07_netlist_clone_orig_region_closed.
+
+Theorem C07_edits_of_original_never_show_in_copy : forall ops n h,
+  let s := run ops init in
+  let sF := fst (fst (clone_netlist s n)) in
+  kind_of s n = Some KNetlist -> Closed s n -> snd (fst (clone_netlist s n)) = None ->
+  Forall (op_in (orig_region (next s) (next sF))) h ->
+  out_eq (orig_region (next s) (next sF)) sF (run h sF) /\ RClosed (orig_region (next s) (next sF)) (run h sF).
+Proof. exact netlist_clone_orig_edits_independent. Qed.
+Print Assumptions C07_edits_of_original_never_show_in_copy.
+
+(* non-vacuity, original side: the same design and clone; the ORIGINAL is edited (leaf widened by a port -
+   its instance 6 gets an outer pin, the copy's instance 24 does not -, the cable's wire disconnected, the
+   top cell renamed, a new child of the leaf created): the original changes, the copy is as the clone left it *)
+Example C07_edits_of_original_sample :
+  let ops := [ ONew KNetlist None []; OCreate RLibs 0 (Some (s2l "work"%string)) [] 0 None;
+               OCreate RDefs 1 (Some (s2l "leaf"%string)) [] 0 None; OCreate RPorts 2 (Some (s2l "A"%string)) [] 1 None;
+               OCreate RDefs 1 (Some (s2l "top"%string)) [] 0 None;
+               OCreate RChildren 5 (Some (s2l "u1"%string)) [] 0 (Some 2);
+               OCreate RCables 5 (Some (s2l "n1"%string)) [] 1 None;
+               OCreate RPorts 5 (Some (s2l "P"%string)) [] 2 None;
+               OConnect 8 (POut 6 4) None; OSetTop 0 (TopDef 5) ] in
+  let s := run ops init in
+  let sF := fst (fst (clone_netlist s 0)) in
+  let h := [ OCreate RPorts 2 (Some (s2l "B"%string)) [] 1 None; ODisconnect 8 (POut 6 4);
+             OSetName 5 (Some (s2l "top_edited"%string)); OCreate RChildren 5 (Some (s2l "u2"%string)) [] 0 (Some 2) ] in
+  (norefb (next s) (next sF) sF = true /\ next s = 13 /\ next sF = 26) /\
+  Forall (op_in (orig_region (next s) (next sF))) h /\
+  (map fst (ipins sF 6) = [4] /\ map fst (ipins (run h sF) 6) = [4; 27] /\ wpins (run h sF) 8 = [] /\
+   kids (run h sF) RChildren 5 = [6; 28] /\ drefs (run h sF) 2 = [6; 28]) /\
+  (map fst (ipins (run h sF) 24) = [17] /\ wpins (run h sF) 23 = [POut 24 17] /\ kids (run h sF) RPorts 15 = [16] /\
+   kids (run h sF) RChildren 18 = [24] /\ drefs (run h sF) 15 = [24] /\ data (run h sF) 18 = data sF 18).
+Proof.
+  cbv zeta. split; [vm_compute; repeat split|]. split; [|vm_compute; repeat split].
+  replace (next (run _ init)) with 13 by (vm_compute; reflexivity).
+  replace (next (fst (fst (clone_netlist _ 0)))) with 26 by (vm_compute; reflexivity).
+  repeat (constructor; [cbn; unfold orig_region; repeat split; intros; try discriminate;
+                        try match goal with H : Some _ = Some _ |- _ => injection H as <- end;
+                        try (left; apply PeanoNat.Nat.ltb_lt; reflexivity); try (right; apply PeanoNat.Nat.leb_le; reflexivity)|]).
+  constructor.
+Qed.
+
+(* LOCALITY including the reference sets: when the references of the region stay inside it as well
+   (RefIn: true of both regions after Netlist.clone; false of the copy made by Definition.clone /
+   Library.clone, whose children reference outside definitions - the documented exception), a call on the
+   region changes no reference set outside it either, and RefIn is preserved. *)
+Theorem C07_locality_with_reference_sets : forall P s o, op_in P o ->
+  RClosed P s -> RefIn P s ->
+  (out_eq P s (fst (step s o)) /\ RClosed P (fst (step s o))) /\ (dr_eq P s (fst (step s o)) /\ RefIn P (fst (step s o))).
+Proof. exact step_loc2. Qed.
+Print Assumptions C07_locality_with_reference_sets.
+
+(* The independence clause at full strength for Netlist.clone: in every reachable state, after a completed
+   clone of a closed netlist, for every history of editing calls (accepted or refused) on objects of the
+   copy - resp. of the original - (objects created by the history join the side it works on), EVERY field
+   of EVERY object of the other side, reference sets included, is exactly as the clone left it. *)
+Definition C07_independent_full : Prop :=
+  forall ops0 n h,
+  let s := run ops0 init in
+  let sF := fst (fst (clone_netlist s n)) in
+  kind_of s n = Some KNetlist -> Closed s n -> snd (fst (clone_netlist s n)) = None ->
+  (* edits of the copy never show in the original *)
+  (Forall (op_in (copy_region (next s))) h ->
+     out_eq (copy_region (next s)) sF (run h sF) /\ forall x, x < next s -> drefs (run h sF) x = drefs sF x) /\
+  (* edits of the original never show in the copy *)
+  (Forall (op_in (fun x => x < next s \/ next sF <= x)) h ->
+     out_eq (fun x => x < next s \/ next sF <= x) sF (run h sF) /\
+     forall x, next s <= x -> x < next sF -> drefs (run h sF) x = drefs sF x).
+
+(* SEPARATION: after a completed Netlist.clone the region of the copy and the region of the original are
+   both closed under every link and share no allocated object; in particular the footprint of the copy -
+   everything reachable from the new netlist through containers, parents, pin-wire joins, outer-pin
+   tables, reference sets and the top instance - consists of objects created by the call *)
+Theorem C07_netlist_clone_regions_separated : forall ops n,
+  let s := run ops init in
+  let sF := fst (fst (clone_netlist s n)) in
+  kind_of s n = Some KNetlist -> Closed s n -> snd (fst (clone_netlist s n)) = None ->
+  Separated (copy_region (next s)) (orig_region (next s) (next sF)) sF.
+Proof. exact netlist_clone_separated. Qed.
+Print Assumptions C07_netlist_clone_regions_separated.
+
+Theorem C07_netlist_clone_footprint_is_new : forall ops n y,
+  let s := run ops init in
+  let sF := fst (fst (clone_netlist s n)) in
+  kind_of s n = Some KNetlist -> Closed s n -> snd (fst (clone_netlist s n)) = None ->
+  footprint sF (snd (clone_netlist s n)) y -> next s <= y.
+Proof. exact netlist_clone_footprint_disjoint. Qed.
+Print Assumptions C07_netlist_clone_footprint_is_new.
+
+Theorem C07_independent : C07_independent_full.
+Proof. exact netlist_clone_independent. Qed.
+Print Assumptions C07_independent.
+
+(* What stays outside: (1) for Definition.clone / Library.clone / Instance.clone the copy's region is closed
+   except for the outward references; C07_locality and C07_independent_of_closed_region apply to any region
+   shown closed (C07_copy_region_closed_from reduces that to the running invariant CI of the frame proof,
+   which is exported for netlist roots only - clone_netlist_ci), so "edits of the copy never show in the
+   original except reference-set growth" is proved for those roots only relative to RClosed of their copy;
+   (2) the transformations uniquify / flatten as "later edits" (the harness applies them; the model's
+   histories here are the 23 editing calls); (3) OSetPolicy changes the process-wide default naming policy,
+   which is not a field of any object and is therefore not part of out_eq. *)
